@@ -614,7 +614,10 @@ class Translator:
             return VScalar("1", "_Bool")
         if t == "false":
             return VScalar("0", "_Bool")
-        m = re.match(r"^(usize|u64|u32|u8|u16|isize|i64)::(MAX|MIN)$", t)
+        mm = re.match(r"^core::num::<impl (usize|u64|u32|u8|u16|u128)>::(MAX|MIN)$", t)
+        if mm:
+            t = f"{mm.group(1)}::{mm.group(2)}"
+        m = re.match(r"^(usize|u64|u32|u8|u16|u128|isize|i64)::(MAX|MIN)$", t)
         if m:
             ty, w = m.group(1), m.group(2)
             ct = CTYPES[ty]
@@ -1109,10 +1112,13 @@ class Translator:
         elif k == "switch":
             v = self.scalar(inst, t.operand)
             other = None
+            bits = {"signed char": 8, "short": 16, "int": 32, "long": 64, "isize": 64}.get(v.ctype)
             for val, bb in t.targets["cases"]:
                 if val == "otherwise":
                     other = bb
                 else:
+                    if bits and re.fullmatch(r"\d+", str(val)) and int(val) >= (1 << (bits - 1)):
+                        val = str(int(val) - (1 << bits))      # MIR prints switch targets of signed discriminants as unsigned bit patterns
                     self.jump(inst, bb, f"{v.expr} == {val}")
             if other is not None:
                 self.jump(inst, other)
@@ -1296,6 +1302,14 @@ class Translator:
                 # enum tuple-variant constructor used as a function value (e.g. `.map_or(Ok(x), Err)`)
                 return self.store(dest, VAgg(list(args), variant=mctor.group(1)))
             f = self.find_fn(closure_val.text)
+            if f is None and re.search(r" as From<.*>>::from\s*$", closure_val.text.strip().rstrip("}").strip()) and len(args) == 1:
+                # `From::from` of an abstracted error type used as a function value (e.g. `.map_err(ERROR::from)`): identity on the model value
+                if dest is not None:
+                    try:
+                        self.store(dest, args[0])
+                    except TranslateError:
+                        pass
+                return None
             if f is None:
                 raise TranslateError(f"fn item not found: {closure_val.text}")
             return self.inline(f, args, dest)
